@@ -36,6 +36,8 @@ func (s *Sim) stepExt(op *Op) bool {
 	switch op.Kind {
 	case "tick":
 		s.opTick(op)
+	case "restart":
+		s.opRestart()
 	case "pubrel":
 		sl := s.Slots[op.C]
 		s.clientSend(sl, &rc.Packet{Type: rc.PUBREL, Version: sl.Ver, PacketID: op.PID})
